@@ -19,6 +19,7 @@ import (
 	"sort"
 	"strings"
 	"sync"
+	"sync/atomic"
 	"time"
 
 	"go.opentelemetry.io/collector/component"
@@ -29,6 +30,14 @@ import (
 )
 
 // Shutdown-point classes.
+// Shutdown-context variants.
+const (
+	CtxBackground   = "background"
+	CtxCancelled    = "cancelled"
+	CtxDeadline     = "deadline"
+	CtxCancelDuring = "cancel-during"
+)
+
 const (
 	PtEnqReturned  = "enq-returned"  // after the j-th enqueue returned
 	PtGated        = "gated"         // while i exports are held in flight
@@ -53,6 +62,10 @@ type Case struct {
 	OpenAfter     int              `json:"open_after"`     // gate: yields between the Shutdown call event and opening the gate
 	ReleaseBefore int              `json:"release_before"` // gate: held calls released before Shutdown is requested
 	Directed      string           `json:"directed,omitempty"`
+	// ShutCtx is the context Shutdown is called with: background | cancelled (before the call) | deadline (1-3 ms,
+	// expires while the drain is in progress when exports are held) | cancel-during (cancelled by another
+	// goroutine while Shutdown is draining)
+	ShutCtx string `json:"shutdown_ctx"`
 }
 
 func (cs Case) scriptName() string {
@@ -99,6 +112,11 @@ func genCase(rng *rand.Rand) Case {
 	if !cfg.Persistent && cfg.Batch != expkit.BatchLegacyNoQueue && rng.Intn(8) == 0 {
 		cfg.WaitForResult = true // sending_queue.wait_for_result: ConsumeX returns the export result
 	}
+	if !cfg.Persistent && cfg.Batch == expkit.BatchNone && !cfg.WaitForResult && rng.Intn(5) == 0 {
+		// no sending queue and no batcher: ConsumeX is synchronous; retry is what Shutdown has to stop
+		cfg.QueueDisabled, cfg.Retry = true, true
+	}
+	cs.ShutCtx = []string{CtxBackground, CtxBackground, CtxBackground, CtxCancelled, CtxDeadline, CtxCancelDuring}[rng.Intn(6)]
 
 	// shutdown point
 	pts := []string{PtEnqReturned, PtGated, PtConcurrent, PtConcurrent}
@@ -115,6 +133,9 @@ func genCase(rng *rand.Rand) Case {
 			pts = append(pts, PtRetryWait)
 		}
 	}
+	if cfg.QueueDisabled {
+		pts = []string{PtRetryWait, PtRetryWait, PtRetryWait, PtConcurrent}
+	}
 	cs.Point = pts[rng.Intn(len(pts))]
 
 	// backend script
@@ -129,6 +150,10 @@ func genCase(rng *rand.Rand) Case {
 		if rng.Intn(3) > 0 {
 			cs.K = 1000
 		}
+	}
+
+	if cfg.QueueDisabled {
+		cs.Slow = false // Shutdown does not (and cannot) wait for the caller's own synchronous calls
 	}
 
 	// workload
@@ -214,6 +239,12 @@ func genCase(rng *rand.Rand) Case {
 		cfg.RetryMaxMS = 5
 		if cs.Point == PtRetryWait {
 			cfg.RetryInitMS, cfg.RetryMaxMS = 3_600_000, 3_600_000
+			if cfg.QueueDisabled && rng.Intn(3) == 0 {
+				// constant back-off of a few ms on an always-failing backend: would it retry again after Shutdown?
+				cfg.RetryInitMS = int64(2 + rng.Intn(4))
+				cfg.RetryMaxMS = cfg.RetryInitMS
+				cs.K = 1000
+			}
 		}
 		// persistent queue: never give up, so that "a transient failure is not a final outcome" is exact
 		if !cfg.Persistent && cs.Point != PtRetryWait && rng.Intn(2) == 0 {
@@ -265,6 +296,32 @@ func directed() []Case {
 		d.Cfg.MinSize, d.Cfg.FlushMS = 1_000_000, 3_600_000
 		d.Point, d.Directed = PtPartialBatch, "persistent-legacy-partial-batch"
 		out = append(out, d)
+		// (8-10) requests queued behind a held export, Shutdown called with a context that is already cancelled /
+		// expires during the drain / is cancelled during the drain: Shutdown must still not return early
+		for _, sc := range []string{CtxCancelled, CtxDeadline, CtxCancelDuring} {
+			d = base(sig, false, expkit.BatchNone)
+			d.Reqs, d.J, d.Slow, d.Point, d.ShutCtx, d.Directed = 6, 1, true, PtGated, sc, "queued-behind-gated-export/ctx-"+sc
+			out = append(out, d)
+		}
+		// (11) persistent queue, held export, cancelled context
+		d = base(sig, true, expkit.BatchNone)
+		d.Reqs, d.J, d.Slow, d.Point, d.ShutCtx, d.Directed = 4, 1, true, PtGated, CtxCancelled, "persistent-gated/ctx-cancelled"
+		out = append(out, d)
+		// (12) no queue, no batcher, retry with a one-hour back-off: the waiting call must be released by Shutdown
+		d = base(sig, false, expkit.BatchNone)
+		d.Cfg.QueueDisabled, d.Cfg.Retry, d.Cfg.RetryInitMS, d.Cfg.RetryMaxMS = true, true, 3_600_000, 3_600_000
+		d.Producers, d.Reqs, d.Script, d.K, d.Point, d.J, d.Directed = 2, 1, "transient", 1000, PtRetryWait, 1, "no-queue-retry-wait-released"
+		out = append(out, d)
+		// (13) the same with a constant 3 ms back-off: no retry may be decided after Shutdown returned
+		d = base(sig, false, expkit.BatchNone)
+		d.Cfg.QueueDisabled, d.Cfg.Retry, d.Cfg.RetryInitMS, d.Cfg.RetryMaxMS = true, true, 3, 3
+		d.Producers, d.Reqs, d.Script, d.K, d.Point, d.J, d.Directed = 2, 1, "transient", 1000, PtRetryWait, 1, "no-queue-short-backoff-no-retry-after-shutdown"
+		out = append(out, d)
+		// (14) queue disabled + legacy batcher + retry, call waiting in the one-hour back-off
+		d = base(sig, false, expkit.BatchLegacyNoQueue)
+		d.Cfg.MinSize, d.Cfg.FlushMS, d.Cfg.Retry, d.Cfg.RetryInitMS, d.Cfg.RetryMaxMS = 0, 1, true, 3_600_000, 3_600_000
+		d.Producers, d.Reqs, d.Script, d.K, d.Point, d.J, d.Directed = 2, 1, "transient", 1000, PtRetryWait, 1, "legacy-noqueue-retry-wait"
+		out = append(out, d)
 	}
 	return out
 }
@@ -286,7 +343,11 @@ func runCase(c *driver.Ctx, cs Case, backends *[]*expkit.Backend) (res outcome, 
 		c.Observe("skipped_invalid_config", 1)
 		return res, true
 	}
-	sigKV := []string{"signal", cfg.Signal, "queue", cfg.QueueKind(), "batch", cfg.Batch, "retry", fmt.Sprint(cfg.Retry), "script", cs.scriptName(), "point", cs.Point}
+	sigKV := []string{"signal", cfg.Signal, "queue", cfg.QueueKind(), "batch", cfg.Batch, "retry", fmt.Sprint(cfg.Retry), "script", cs.scriptName(), "point", cs.Point, "shutctx", cs.ShutCtx}
+	if cs.ShutCtx == "" {
+		cs.ShutCtx = CtxBackground
+		sigKV[len(sigKV)-1] = CtxBackground
+	}
 
 	before := expkit.HelperGoroutines()
 	log := expkit.NewLog()
@@ -364,6 +425,19 @@ func runCase(c *driver.Ctx, cs Case, backends *[]*expkit.Backend) (res outcome, 
 	defer cancelProducers()
 	var shutCall, shutRet, inflightAtReturn int64
 	var shutErr error
+	shutCtx, shutCancel := context.Background(), context.CancelFunc(func() {})
+	switch cs.ShutCtx {
+	case CtxCancelled:
+		shutCtx, shutCancel = context.WithCancel(context.Background())
+		shutCancel()
+	case CtxCancelDuring:
+		shutCtx, shutCancel = context.WithCancel(context.Background())
+	}
+	defer func() { shutCancel() }()
+	var shutGID atomic.Int64
+	var notReleased []string // queue-less: producers still parked in the retry wait after Shutdown returned
+	var badRelease []string  // queue-less: calls released with an error that is not shutdown-classified
+	producerGID := make([]atomic.Int64, cs.Producers)
 	var image map[string][]byte
 	var leaked []expkit.G
 	var steerTimeouts int
@@ -381,6 +455,9 @@ func runCase(c *driver.Ctx, cs Case, backends *[]*expkit.Backend) (res outcome, 
 			oc := ""
 			if err != nil {
 				oc = "error"
+				if strings.Contains(err.Error(), "interrupted due to shutdown") {
+					oc = "shutdown-error"
+				}
 			}
 			log.Add(expkit.Event{Kind: expkit.EvEnqRet, Actor: p, Req: r, Outcome: oc, N: len(reqIDs[p][r])})
 		}
@@ -390,6 +467,7 @@ func runCase(c *driver.Ctx, cs Case, backends *[]*expkit.Backend) (res outcome, 
 				wg.Add(1)
 				go func(p int) {
 					defer wg.Done()
+					producerGID[p].Store(expkit.CurGID())
 					for r := 0; r < cs.Reqs; r++ {
 						enqueue(p, r)
 						for y := h32(p, r, cs.Yields) % 3; y > 0; y-- {
@@ -403,12 +481,39 @@ func runCase(c *driver.Ctx, cs Case, backends *[]*expkit.Backend) (res outcome, 
 		openerDone := make(chan struct{})
 		go func() {
 			defer close(openerDone)
-			if gate == nil {
+			if gate == nil && cs.ShutCtx != CtxCancelDuring {
 				return
 			}
 			log.WaitCount(expkit.EvShutCall, 1, nil, 10*time.Minute)
 			for y := 0; y < cs.OpenAfter; y++ {
 				runtime.Gosched()
+			}
+			// end the Shutdown context while the drain is in progress (exports still held)
+			switch cs.ShutCtx {
+			case CtxCancelDuring:
+				shutCancel()
+			case CtxDeadline:
+				<-shutCtx.Done() // observed logically: ctx.Err() != nil from here on
+			}
+			if gate == nil {
+				return
+			}
+			if cs.ShutCtx != CtxBackground {
+				// give Shutdown the chance to return early: keep the exports held until it has returned or is
+				// parked inside the helper (state inspection, bounded; only steering)
+				for try := 0; try < 300 && log.Count(expkit.EvShutRet) == 0; try++ {
+					if _, parked := expkit.ParkedIn(expkit.Dump(), shutGID.Load(), ""); parked {
+						break
+					}
+					if try < 30 {
+						runtime.Gosched()
+					} else {
+						time.Sleep(50 * time.Microsecond)
+					}
+				}
+				for y := 0; y < cs.OpenAfter%7; y++ {
+					runtime.Gosched()
+				}
 			}
 			gate.Open()
 		}()
@@ -475,14 +580,68 @@ func runCase(c *driver.Ctx, cs Case, backends *[]*expkit.Backend) (res outcome, 
 			runtime.Gosched()
 		}
 
+		if cs.ShutCtx == CtxDeadline {
+			var cf context.CancelFunc
+			shutCtx, cf = context.WithTimeout(context.Background(), time.Duration(1+h32(caseTag)%3)*time.Millisecond)
+			prev := shutCancel
+			shutCancel = func() { cf(); prev() }
+		}
+		shutGID.Store(expkit.CurGID())
 		shutCall = log.Add(expkit.Event{Kind: expkit.EvShutCall})
-		shutErr = exp.Shutdown(context.Background())
+		shutErr = exp.Shutdown(shutCtx)
 		inflightAtReturn = be.Inflight()
 		shutRet = log.Add(expkit.Event{Kind: expkit.EvShutRet})
 
 		// producers that are still inside ConsumeX (wait_for_result, or enqueuing after the stop) are
 		// the harness's own goroutines: release them.
 		<-openerDone
+		if cfg.QueueDisabled {
+			// Every call that was in (or enters) its retry back-off must be released by the shutdown; no retry may be
+			// decided after Shutdown returned. Observed until the producers have returned, a late retry decision shows
+			// in the attempt records, or the producers sit in the retry wait in dump after dump.
+			done := make(chan struct{})
+			go func() { wg.Wait(); close(done) }()
+			stable := 0
+		observe:
+			for try := 0; try < 6000; try++ {
+				select {
+				case <-done:
+					break observe
+				default:
+				}
+				if lateRetryDecision(be.Attempts(), shutRet) != nil {
+					break
+				}
+				d := expkit.Dump()
+				parked, running := 0, 0
+				for p := range producerGID {
+					if g, ok := d[producerGID[p].Load()]; ok { // goroutine ids are never reused: the producer has not finished
+						running++
+						if _, in := expkit.ParkedIn(d, g.ID, "retrySender).Send"); in && strings.HasPrefix(g.State, "select") {
+							parked++
+						}
+					}
+				}
+				if running > 0 && parked == running {
+					stable++
+				} else {
+					stable = 0
+				}
+				if stable >= 8 {
+					for p := range producerGID {
+						if g, in := expkit.ParkedIn(d, producerGID[p].Load(), "retrySender).Send"); in {
+							notReleased = append(notReleased, fmt.Sprintf("producer %d: %s [%s]", p, g.TopRepo, g.State))
+						}
+					}
+					break
+				}
+				if try < 20 {
+					runtime.Gosched()
+				} else {
+					time.Sleep(200 * time.Microsecond)
+				}
+			}
+		}
 		cancelProducers()
 		wg.Wait()
 		leaked = expkit.Leaked(before, 5)
@@ -584,13 +743,47 @@ func runCase(c *driver.Ctx, cs Case, backends *[]*expkit.Backend) (res outcome, 
 				}
 			}
 		}
-		// no export call begins after Shutdown returned
-		if a.Begin > shutRet {
+		// no export call begins after Shutdown returned. Without a queue the first attempt of a call belongs to the
+		// caller (it may have been on its way when Shutdown returned); what the helper owns are the retries: see
+		// lateRetryDecision below.
+		if a.Begin > shutRet && !cfg.QueueDisabled {
 			c.Violation("export-after-shutdown", fmt.Sprintf("export call #%d began (seq %d) after Shutdown returned (seq %d) (%s)", a.No, a.Begin, shutRet, cfg.Class()),
 				witness(cs, evs, nil, image), sigKV...)
 		}
 	}
-	if inflightAtReturn != 0 {
+	if cfg.QueueDisabled {
+		if lr := lateRetryDecision(atts, shutRet); lr != nil {
+			c.Violation("export-after-shutdown", fmt.Sprintf("retry attempt #%d began (seq %d) although the attempt it repeats (#%d) had ended (seq %d) after Shutdown returned (seq %d): the retry was decided after the shutdown (%s, back-off %d ms)",
+				lr[1].No, lr[1].Begin, lr[0].No, lr[0].End, shutRet, cfg.Class(), cfg.RetryInitMS), witness(cs, evs, nil, image), sigKV...)
+		}
+		if len(notReleased) > 0 {
+			c.Violation("retry-wait-not-released", fmt.Sprintf("Shutdown returned but %d ConsumeX call(s) stay parked in the retry back-off (%s): %v", len(notReleased), cfg.Class(), notReleased),
+				witness(cs, evs, nil, image), sigKV...)
+		} else {
+			// a call released from a transiently failed chain after the shutdown must carry the shutdown classification
+			lastOutcome := map[string]string{}
+			for _, a := range atts {
+				if a.End != 0 {
+					for _, id := range a.IDs {
+						lastOutcome[id] = a.Outcome
+					}
+				}
+			}
+			for _, e := range evs {
+				if e.Kind == expkit.EvEnqRet && e.Seq > shutCall && e.Outcome == "error" && cfg.RetryElapsedMS == 0 {
+					if oc := lastOutcome[reqIDs[e.Actor][e.Req][0]]; oc == expkit.Transient {
+						badRelease = append(badRelease, fmt.Sprintf("p%d.r%d", e.Actor, e.Req))
+					}
+				}
+			}
+			if len(badRelease) > 0 && lateRetryDecision(atts, shutRet) == nil {
+				c.Violation("release-not-shutdown-classified", fmt.Sprintf("%d ConsumeX call(s) whose last attempt failed transiently returned after Shutdown was requested with an error that is not shutdown-classified (%s): %v", len(badRelease), cfg.Class(), badRelease),
+					witness(cs, evs, nil, image), sigKV...)
+			}
+		}
+		c.Observe("runs_without_queue", 1)
+	}
+	if inflightAtReturn != 0 && !cfg.QueueDisabled {
 		c.Violation("inflight", fmt.Sprintf("%d export call(s) had begun and not returned at the instant Shutdown returned (%s, %s/%s)", inflightAtReturn, cfg.Class(), cs.scriptName(), cs.Point),
 			witness(cs, evs, nil, image), sigKV...)
 	}
@@ -653,7 +846,7 @@ func runCase(c *driver.Ctx, cs Case, backends *[]*expkit.Backend) (res outcome, 
 
 	// evidence
 	if res.nontrivial {
-		c.Nontrivial(cfg.Class(), cs.scriptName(), cs.Point)
+		c.Nontrivial(cfg.Class(), cs.scriptName(), cs.Point, cs.ShutCtx)
 		c.Observe("nontrivial_runs", 1)
 	}
 	c.Distinct("interleavings", interleaving(evs))
@@ -661,6 +854,13 @@ func runCase(c *driver.Ctx, cs Case, backends *[]*expkit.Backend) (res outcome, 
 	c.Observe("accepted_items_before_shutdown", int64(res.accepted))
 	c.Observe("unfinished_items_at_shutdown_request", int64(res.unfinished))
 	c.Observe("point:"+cs.Point, 1)
+	c.Observe("shutctx:"+cs.ShutCtx, 1)
+	if shutErr != nil && cs.ShutCtx != CtxBackground {
+		c.Observe("shutdown_returned_ctx_error", 1)
+	}
+	if shutCtx.Err() != nil && inflightAtCallLater(atts, shutCall) > 0 {
+		c.Observe("runs_shutdown_ctx_ended_with_exports_in_flight", 1)
+	}
 	if cfg.Persistent {
 		c.Observe("runs_persistent", 1)
 	} else {
@@ -684,6 +884,37 @@ func runCase(c *driver.Ctx, cs Case, backends *[]*expkit.Backend) (res outcome, 
 			"export_attempts": len(atts), "inflight_at_shutdown_request": inflightAtCall, "events": tailEvents(evs, 40)})
 	}
 	return res, true
+}
+
+// lateRetryDecision returns (previous attempt, retry attempt) when a retry began after an attempt of the same
+// items had ended after Shutdown returned, i.e. the decision to retry was taken after the shutdown.
+func lateRetryDecision(atts []expkit.Attempt, shutRet int64) []expkit.Attempt {
+	if shutRet == 0 {
+		return nil
+	}
+	last := map[string]expkit.Attempt{}
+	for _, a := range atts {
+		if len(a.IDs) > 0 {
+			if prev, ok := last[a.IDs[0]]; ok && prev.End != 0 && prev.End > shutRet && a.Begin > prev.End {
+				return []expkit.Attempt{prev, a}
+			}
+			for _, id := range a.IDs {
+				last[id] = a
+			}
+		}
+	}
+	return nil
+}
+
+// inflightAtCallLater counts the export calls that were in flight when Shutdown was requested.
+func inflightAtCallLater(atts []expkit.Attempt, shutCall int64) int {
+	n := 0
+	for _, a := range atts {
+		if a.Begin < shutCall && (a.End == 0 || a.End > shutCall) {
+			n++
+		}
+	}
+	return n
 }
 
 func interleaving(evs []expkit.Event) string {
